@@ -454,7 +454,8 @@ class Region(object):
             array of (ra,dec) coordinates.
         """
         try:
-            sky = np.array(list(zip(ra, dec)))
+            # reshape so that empty inputs also give an (0,2) array
+            sky = np.array(list(zip(ra, dec))).reshape((-1, 2))
         except TypeError:
             sky = np.array([(ra, dec)])
         return sky
